@@ -96,7 +96,8 @@ def _ec_pool(r, f, focus, max_diff):
   k_first = r.choice([1, 1, 2, 3])
   for _ in range(r.randint(*f["healthy"])):
     pool.append(A.ec_healthy(r, r.choice(curves)))
-  fams = ["weak_priv", "weak_priv", "small_diff", "far_diff", "duplicate",
+  fams = ["weak_priv", "weak_priv", "small_diff", "small_diff_chain",
+          "far_diff", "duplicate", "duplicate_enc",
           "negated", "invalid", "relabelled", "unknown_curve", "weak_curve",
           "overshoot", "binary_curve"]
   lo = 0 if focus == "C18" else 1
@@ -118,6 +119,23 @@ def _ec_pool(r, f, focus, max_diff):
         a["truth"]["pair"] = pair_id
       pair_id += 1
       pool += pair
+  if "small_diff_chain" in enabled:
+    chain = A.ec_small_diff_chain(r, r.choice(curves), max_diff)
+    for a in chain:
+      a["truth"]["pair"] = pair_id
+    pair_id += 1
+    pool += chain
+  if "duplicate_enc" in enabled:
+    # the same point in two different byte encodings (fixed width with leading
+    # zeros vs minimal): equal keys, unequal protobufs
+    base = A.ec_healthy(r, c1)
+    ln = (int(c1.p.bit_length()) + 7) // 8 + r.choice([1, 2])
+    dup = dict(base)
+    dup["x"] = A.i2h(int(base["x"], 16), ln)
+    dup["y"] = A.i2h(int(base["y"], 16), ln)
+    base["fam"] = dup["fam"] = "duplicate"
+    dup["truth"] = dict(base["truth"], encoding="padded")
+    pool += [base, dup]
   if "far_diff" in enabled:
     pair = A.ec_small_diff_pair(r, c1, max_diff, inside=False)
     for a in pair:
@@ -307,6 +325,42 @@ def gen_ec(r, tier, f, focus):
                   "batch": batch,
                   "oracle": [{"relation": "same", "order": list(batch)}]})
       length += 3
+  pair_c1 = [j for j in range(n) if pool[j]["fam"] == "small_diff"]
+  chain = [j for j in range(n) if pool[j]["fam"] == "small_diff_chain"]
+  if chain:
+    # every order of a chain: the verdicts must follow the keys
+    for _ in range(r.randint(1, 2)):
+      order = list(chain) + r.sample([j for j in range(n) if j not in chain],
+                                     min(n - len(chain), r.randint(0, 2)))
+      r.shuffle(order)
+      ops.append({"op": "check", "batch": order,
+                  "check": {"name": "CheckECKeySmallDifference",
+                            "how": "registry", "via": "all"},
+                  "oracle": [{"relation": "perm",
+                              "order": r.sample(order, len(order))}]
+                  if r.random() < f["oracle"] else []})
+    length += 2
+  if pair_c1 and r.random() < 0.5:
+    # table growth / reuse on one curve: a request that leaves a small table,
+    # then the configured maximum (which must rebuild), or the other way round
+    cid = pool[pair_c1[0]]["curve"]
+    cc = A.curves()[cid]
+    b = [j for j in pair_c1 if pool[j]["curve"] == cid]
+    small = {"op": "curve_op", "curve": cid, "fn": "BatchDLOfDifferences",
+             "max_diff": 2 ** r.randint(2, 6),
+             "points": [[A.i2h(p[0]), A.i2h(p[1])] for p in
+                        (cc.mul(r.randrange(1, int(cc.n))) for _ in range(2))]}
+    full = {"op": "check", "batch": b + [j for j in range(n) if
+                                        pool[j]["curve"] == cid and
+                                        j not in b][:2],
+            "check": {"name": "CheckECKeySmallDifference", "how": "registry",
+                      "via": r.choice(["all", "aggregates"])},
+            "oracle": [{"relation": "same", "order": list(b)}]
+            if r.random() < 0.5 else []}
+    if full["oracle"]:
+      full["batch"] = list(b)
+    ops += [small, full] if r.random() < 0.7 else [full, small, dict(full)]
+    length += 2
   while len(ops) < length:
     u = r.random()
     if dups and u < 0.17:
@@ -517,7 +571,7 @@ def _ecdsa_pool(r, f, focus, max_diff=256):
     add_group(iss.healthy(r, max(1, nh)), None)
   fams = ["msb", "prefix", "postfix", "u2f", "weak_key", "invalid_key",
           "unknown_curve", "dup_sig", "hash_lens", "relabelled_key",
-          "close_keys", "close_keys"]
+          "close_keys", "close_keys", "multi_fail"]
   enabled = set(r.sample(fams, r.randint(0 if focus == "C18" else 1, 4)))
   for kind in ("msb", "prefix", "postfix"):
     if kind in enabled:
@@ -551,6 +605,28 @@ def _ecdsa_pool(r, f, focus, max_diff=256):
         a["fam"] = "close_issuer_keys"
         a["healthy"] = False
       add_group(arts, None)
+  if "multi_fail" in enabled:
+    # an issuer key that fails two EC checks of different severity: weak curve
+    # (MEDIUM) and structured private key (CRITICAL), or structured key plus a
+    # close partner (CRITICAL and HIGH)
+    if r.random() < 0.5:
+      c = A.curve_by_name("secp192r1")
+      wk = ec_weak_priv_spec(r, c)
+      iss = A.Issuer(r, c, "I%d" % label, d=int(wk["d"], 16), weak_key=True)
+      arts = iss.healthy(r, r.randint(1, 2))
+      for a in arts:
+        a.update(fam="multi_fail_issuer_key", healthy=False)
+      add_group(arts, None)
+    else:
+      c = r.choice(curves)
+      wk = ec_weak_priv_spec(r, c)
+      d1 = int(wk["d"], 16)
+      for d in (d1, d1 + r.randrange(1, max_diff)):
+        iss = A.Issuer(r, c, "I%d" % label, d=d, weak_key=True)
+        arts = iss.healthy(r, 1)
+        for a in arts:
+          a.update(fam="multi_fail_issuer_key", healthy=False)
+        add_group(arts, None)
   if "invalid_key" in enabled:
     c = r.choice(curves)
     bad = A.ec_invalid(r, c, r.choice(A.EC_INVALID_KINDS))
